@@ -4,7 +4,8 @@ Writes /verif/scratch/regress.json and prints one line per seed."""
 import glob, json, os, subprocess, sys, time
 env = dict(os.environ, VERIF_EVIDENCE_DIR="/verif/scratch/mut/evidence", VERIF_REPLAY_DIR="/verif/scratch/mut/replays")
 os.makedirs("/verif/scratch/mut/evidence", exist_ok=True)
-only = sys.argv[1:]
+update = "--update" in sys.argv
+only = [a for a in sys.argv[1:] if a != "--update"]
 out = {}
 for d in sorted(glob.glob('/verif/seeded/*/')):
     name = os.path.basename(d.rstrip('/'))
@@ -29,6 +30,10 @@ for d in sorted(glob.glob('/verif/seeded/*/')):
         subprocess.run(['git', '-C', '/repo', 'checkout', '--', '.'])
         subprocess.run(['git', '-C', '/repo', 'clean', '-fdq'])
     ok = all(row.get(k) == v for k, v in res.items() if k in row)
+    if update and not ok:
+        m.setdefault('checks_run_against_it', {}).setdefault('results', {}).update(row)
+        m['checks_run_against_it']['re_run'] = 'results updated by tools_regress.py after the checks were strengthened (see DESIGN 9.5)'
+        json.dump(m, open(d + 'meta.json', 'w'), indent=1)
     out[name] = row
     print(name, row, '' if ok else '   <-- differs from recorded %s' % {k: res[k] for k in row if k in res}, flush=True)
     json.dump(out, open('/verif/scratch/regress.json', 'w'), indent=1)
